@@ -145,6 +145,9 @@ func rectRing(x0, y0, x1, y1 int) []ipt {
 
 // a polygon (possibly with a hole) with even lattice coordinates (unit u, midpoints exist)
 func genPoly(r *rng, u int) shape {
+	if r.coin(0.08) {
+		return multiHolePoly(r, u)
+	}
 	var ext []ipt
 	switch r.intn(4) {
 	case 0:
@@ -203,6 +206,10 @@ func contactPool(r *rng, a shape, u int) []ipt {
 				if (p.x+q.x)%2 == 0 && (p.y+q.y)%2 == 0 {
 					pool = append(pool, ipt{(p.x + q.x) / 2, (p.y + q.y) / 2})
 				}
+				if (q.x-p.x)%4 == 0 && (q.y-p.y)%4 == 0 && r.coin(0.5) {
+					// quarter points: two interior points of the same edge (nested collinear segments)
+					pool = append(pool, ipt{p.x + (q.x-p.x)/4, p.y + (q.y-p.y)/4}, ipt{p.x + 3*(q.x-p.x)/4, p.y + 3*(q.y-p.y)/4})
+				}
 			}
 		}
 	}
@@ -213,10 +220,75 @@ func contactPool(r *rng, a shape, u int) []ipt {
 	return pool
 }
 
+// a many-vertex convex-ish ring (>= 16 points: the rectangle shortcut of ringContainsRing)
+// around c, leftmost/rightmost/top/bottom vertices on the lattice
+func roundRing(r *rng, c ipt, rad int, n int) []ipt {
+	var pts []ipt
+	seen := map[ipt]bool{}
+	for i := 0; i < n; i++ {
+		a := 2 * math.Pi * float64(i) / float64(n)
+		p := ipt{c.x + int(math.Round(float64(rad)*math.Cos(a))), c.y + int(math.Round(float64(rad)*math.Sin(a)))}
+		if !seen[p] {
+			seen[p] = true
+			pts = append(pts, p)
+		}
+	}
+	return closeRing(pts)
+}
+
+// a square with several square holes
+func multiHolePoly(r *rng, u int) shape {
+	n := r.rangeI(2, 3)
+	size := 8 * u * (n + 1)
+	s := shape{kind: "poly", rings: [][]ipt{rectRing(0, 0, size, 8*u*2)}}
+	for i := 0; i < n; i++ {
+		x := 8*u*i + 2*u + r.rangeI(0, 2)*u
+		s.rings = append(s.rings, rectRing(x, 4*u, x+2*u+r.rangeI(0, 2)*u, 4*u+4*u))
+	}
+	if r.coin(0.5) { // the hole order matters to some defects
+		s.rings[1], s.rings[len(s.rings)-1] = s.rings[len(s.rings)-1], s.rings[1]
+	}
+	return s
+}
+
 // a probe shape biased to touch `a`
 func genProbe(r *rng, a shape, u int) shape {
 	pool := contactPool(r, a, u)
 	pp := func() ipt { return pool[r.intn(len(pool))] }
+	if r.coin(0.12) {
+		// many-vertex probes: inside a hole touching it, inside the bounding box, around a pool point
+		c := pp()
+		rad := r.pick([]int{u, 2 * u, 3 * u})
+		if len(a.rings) > 1 && r.coin(0.6) {
+			h := a.rings[1+r.intn(len(a.rings)-1)]
+			minx, miny, maxx, maxy := bbox(h)
+			rad = (maxx - minx) / 2
+			if (maxy-miny)/2 < rad {
+				rad = (maxy - miny) / 2
+			}
+			if r.coin(0.5) && rad > 1 {
+				rad = rad / 2
+			}
+			c = ipt{minx + rad, (miny + maxy) / 2} // leftmost vertex on the hole's left edge
+		}
+		if rad < 1 {
+			rad = u
+		}
+		ring := roundRing(r, c, rad, r.rangeI(16, 24))
+		if r.coin(0.5) {
+			return shape{kind: "poly", rings: [][]ipt{ring}}
+		}
+		return shape{kind: "line", rings: [][]ipt{ring[:len(ring)-1]}}
+	}
+	if len(a.rings) > 2 && r.coin(0.4) {
+		// a polygon with a hole that covers some of a's holes but not others
+		minx, miny, maxx, maxy := bbox(a.rings[0])
+		b := shape{kind: "poly", rings: [][]ipt{rectRing(minx+u, miny+u, maxx-u, maxy-u)}}
+		h := a.rings[1+r.intn(len(a.rings)-1)]
+		hx0, hy0, hx1, hy1 := bbox(h)
+		b.rings = append(b.rings, rectRing(hx0-u, hy0-u, hx1+u, hy1+u))
+		return b
+	}
 	switch r.intn(10) {
 	case 0:
 		return shape{kind: "pt", rings: [][]ipt{{pp()}}}
@@ -229,7 +301,7 @@ func genProbe(r *rng, a shape, u int) shape {
 		var pts []ipt
 		for len(pts) < n {
 			p := pp()
-			if len(pts) > 0 && pts[len(pts)-1] == p {
+			if len(pts) > 0 && pts[len(pts)-1] == p && !r.coin(0.15) {
 				continue
 			}
 			pts = append(pts, p)
@@ -512,6 +584,16 @@ func genC01(o *out, r *rng, thorough bool) {
 				s.rings = append(s.rings, starRing(r, 0, 0, 3, r.rangeI(3, 8), u))
 			}
 		}
+		if i%10 == 7 {
+			// item-width boundaries of the compressed indexes: 255..258 segments, the last segment decides
+			n := r.pick([]int{255, 256, 257, 258})
+			var ext []ipt
+			for k := n - 3; k >= 0; k-- {
+				ext = append(ext, ipt{k * u, 0})
+			}
+			ext = append(ext, ipt{0, 100 * u}, ipt{(n - 3) * u, 100 * u}, ipt{(n - 3) * u, 0})
+			s = shape{kind: "poly", rings: [][]ipt{ext}}
+		}
 		npts := len(s.rings[0])
 		cfgs := [][2]int{{0, 0}, {1, 1}, {2, 1}, {1, npts}, {2, npts}, {1, npts + 1}, {2, 64}, {1, 64}}
 		var ids []string
@@ -528,6 +610,17 @@ func genC01(o *out, r *rng, thorough bool) {
 		for j := 0; j < 6; j++ {
 			a, b := pool[r.intn(len(pool))], pool[r.intn(len(pool))]
 			pool = append(pool, ipt{a.x, b.y})
+		}
+		if len(pool) > 60 { // large rings: a sample of the contact points
+			for k := range pool {
+				j := r.intn(len(pool))
+				pool[k], pool[j] = pool[j], pool[k]
+			}
+			pool = pool[:60]
+		}
+		if i%10 == 7 {
+			// points that the last (right-hand) segment decides
+			pool = append(pool, ipt{10 * u, 50 * u}, ipt{(len(s.rings[0]) - 4) * u, 50 * u}, ipt{0, 50 * u})
 		}
 		for _, q := range pool {
 			g := o.newGroup()
